@@ -356,7 +356,10 @@ def _pp(n, depth=0):
     if k == 'Path':
         if n.get('res') == 'local':
             return n['name']
-        return short(n.get('def', n.get('res', '?')))
+        d = n.get('def', n.get('res', '?'))
+        if d.startswith('std::option::Option::') or d.startswith('std::result::Result::'):
+            return d.split('::')[-1]
+        return short(d)
     if k == 'Call':
         return '%s(%s)' % (_pp(n['f']), ', '.join(_pp(a) for a in n['args']))
     if k == 'MCall':
